@@ -5,17 +5,28 @@
   suite) and quantify over all string functions `S` (camelCase / upper / split are opaque), all class
   trees, all mapper lists of any length, all instances of any nesting depth.
 
+  Layout:
+    * aggregation = pointwise composition (`agg_field_pointwise`, `ser_aggregate_pointwise_every_level`),
+      hence `serialize = Spec.specSer` at every depth (`spec_ser_eq_ser`);
+    * key-set law (`ser_keys_*`, `no_collision_if_injective`);
+    * round trip under per-level hypotheses, any `keep_undefined`, classes with or without
+      `_additional_properties = False` (`mapper_round_trip_K`, `mapper_round_trip`, `closed_tree_round_trip`);
+    * `Sync` proved inside the decidable region `regionOK` for any depth, `camel_case_convert` on or off
+      (`sync_in_region`, `mapper_round_trip_region`, `…_K`, `…_ascii`, `camel_idempotent_ascii`);
+    * the process-wide cache, call level and with the nested-class entries threaded
+      (`cache_transparent`, `history_transparent`, `cache_transparent_nested`, `history_transparent_nested`);
+    * wrappers (`bad_mapper_key_rejected`), several bases (`mro_collection_example`), Map values
+      (`serC_eq_ser`, `map_values_example`).
+
   What the code still violates (kept in the model, see the counterexample theorem and known finding):
     * `nested-resync` — the deserializer re-aggregates a nested class's mappers from the override it
-      is handed and can resolve different keys than the serializer used.
-  Fixed in /repo and in the model: `fallback-capture` (f476845: no fallback to the unmapped field name
-  when that name is another field's key) and `dns-blocks-deserialize` (e74486a: a `DoNotSerialize`
-  entry no longer makes `get_processed_input` raise); `fallback_capture_fixed` /
-  `dns_deserialize_fixed` are the former counterexamples, now round-tripping, and `mapper_round_trip`
-  no longer has a `NoFallbackCapture` hypothesis.
+      is handed and can resolve different keys than the serializer used (outside `regionOK`).
+  Fixed in /repo and in the model (former counterexamples, now round-tripping `…_fixed` theorems):
+  `fallback-capture` (f476845), `dns-blocks-deserialize` (e74486a), `inherited-closed-class-rejects-mapped-key`
+  (0225533), `keep-undefined-leak` (005d815), `keep-undefined-leak:deserialize_map` (73883e4, `map_values_example`).
   `C07_statement` is the full-strength round trip; `mapper_round_trip` is the `_partial` theorem whose
   decidable hypotheses (`levelOK` at every level) exclude exactly the remaining region (`Sync` fails
-  at a nested level).
+  at a nested level); `mapper_round_trip_region` discharges them inside `regionOK`.
 -/
 import TypedpyModel.Lemmas.MappersRegion
 import TypedpyModel.Lemmas.MappersCache
